@@ -1,8 +1,9 @@
 From Coq Require Extraction.
 From Coq Require Import ExtrOcamlBasic.
-From NV Require Import Base.Witness CramIdx.Crai CramIdx.Multi CramIdx.Transport CramIdx.Bytes CramIdx.AsyncQuery CramIdx.Gz.
+From NV Require Import Base.Witness CramIdx.Crai CramIdx.Multi CramIdx.Transport CramIdx.Bytes CramIdx.AsyncQuery CramIdx.Gz CramIdx.ZeroSpan.
 Extraction "model.ml" nv_types_witness written index index_core query_region mkrec
   index_m query_region_m query_unmapped wslice mkmcont bump_landmark single_file
   crai_text query_via_file query_unmapped_via_file index_of_bytes32
   async_queries32 async_query_unmapped32 sync_queries32 sync_query_unmapped32
-  read_crai_gz gunzip gz_framed_as write_crai_gz_stored beqb buf_file query_region_buf index_real.
+  read_crai_gz gunzip gz_framed_as write_crai_gz_stored beqb buf_file query_region_buf index_real
+  bufz_file query_region_bufz index_then_query.
